@@ -278,13 +278,16 @@ fn tlv_items(mut it: v2::TypeLengthValues<'_>, nbytes: usize) -> String {
     }
     // after the end, `next` must keep returning None
     let fused = ended && it.next().is_none() && it.next().is_none();
+    // the section view is the whole section wherever the cursor is
+    let sbytes = it.as_bytes().len() == nbytes && it.len() == (nbytes as u16) && it.is_empty() == (nbytes == 0);
     format!(
-        "[{}] steps={} ended={} fused={} towned={}",
+        "[{}] steps={} ended={} fused={} towned={} sbytes={}",
         parts.join(","),
         steps,
         b01(ended),
         b01(fused),
-        b01(owned_ok)
+        b01(owned_ok),
+        b01(sbytes)
     )
 }
 
@@ -469,6 +472,8 @@ enum Payload {
     Pair(u8, Vec<u8>),
     PairT(v2::Type, Vec<u8>),
     Section(Vec<u8>),
+    /// a `TypeLengthValues` that has already been advanced by `n` calls of `next()`
+    SectionAdv(usize, Vec<u8>),
     Type(v2::Type),
 }
 
@@ -502,6 +507,10 @@ fn parse_payload(s: &str) -> Option<Payload> {
             Payload::PairT(tlv_type(t)?, bytes_spec(b)?)
         }
         "sec" => Payload::Section(bytes_spec(v)?),
+        "seca" => {
+            let (n, b) = v.split_once(':')?;
+            Payload::SectionAdv(n.parse().ok()?, bytes_spec(b)?)
+        }
         "ty" => Payload::Type(tlv_type(v)?),
         _ => return None,
     })
@@ -542,6 +551,14 @@ macro_rules! with_payload {
             }
             Payload::Section(v) => {
                 let $x = v2::TypeLengthValues::from(v.as_slice());
+                $body
+            }
+            Payload::SectionAdv(n, v) => {
+                let mut it = v2::TypeLengthValues::from(v.as_slice());
+                for _ in 0..*n {
+                    let _ = it.next();
+                }
+                let $x = it;
                 $body
             }
             Payload::Type($x) => $body,
